@@ -647,3 +647,13 @@ Proof.
   exists (gs ++ fs), l, items. rewrite plug_app, zpath_app, zpre_app, zpost_app.
   repeat split; try assumption; rewrite <- ?app_assoc; reflexivity.
 Qed.
+
+Lemma at_pos_eq : forall root path item A e B A' B', at_pos root path item A e B -> A = A' -> B = B' ->
+  at_pos root path item A' e B'.
+Proof. intros; subst; assumption. Qed.
+
+Lemma c18_last_or_nil {A} (l : list A) : l = [] \/ exists l' a, l = l' ++ [a].
+Proof.
+  destruct l as [|x l]; [left; reflexivity|right]. assert (H : x :: l <> []) by discriminate.
+  destruct (exists_last H) as (l' & a & ->). exists l', a. reflexivity.
+Qed.
